@@ -209,6 +209,54 @@ var specInstants = pbt.Register(pbt.Spec[Instant]{
 
 func TestRandomInstants(t *testing.T) { specInstants.Check(t) }
 
+// ---- the helpers are UTC helpers whatever the host's zone is -------------------------------------------
+
+type ZonedInstant struct {
+	I        Instant `json:"i"`
+	Zone     int     `json:"zone,omitempty"` // minutes east of UTC
+	ZoneName string  `json:"zone_name,omitempty"`
+}
+
+var zoneNames = []string{"America/New_York", "Europe/Berlin", "Australia/Sydney", "America/Sao_Paulo", "Asia/Seoul", "Pacific/Kiritimati", "Pacific/Pago_Pago"}
+
+var specZoned = pbt.Register(pbt.Spec[ZonedInstant]{
+	Prop: "C19", Name: "helpers-ignore-host-zone",
+	Rule:  "instants drawn as in calendar-random-instants, checked with the process's local zone (time.Local) set to a fixed offset (-12 h ... +14 h) or a named zone with daylight saving (embedded zone database): every helper (date strings, weekday, units, date-string-to-time, time stamps) must give the UTC answers of the standard library - the helpers are bound to a UTC table, an agent host's zone is not an input; non-trivial = every case with a zone other than UTC; distinct by (instant, zone)",
+	Quick: 60000, Thorough: 1500000,
+	Draw: func(t *rapid.T) ZonedInstant {
+		c := ZonedInstant{I: drawInstant(t)}
+		if rapid.Bool().Draw(t, "named") {
+			c.ZoneName = rapid.SampledFrom(zoneNames).Draw(t, "zonename")
+		} else {
+			c.Zone = rapid.SampledFrom([]int{540, -480, 330, 345, -210, 60, -60, 780, 840, -720, 1}).Draw(t, "zone")
+		}
+		return c
+	},
+	Run: func(c ZonedInstant) *pbt.Result {
+		old := time.Local
+		defer func() { time.Local = old }()
+		name := c.ZoneName
+		if c.ZoneName != "" {
+			loc, err := time.LoadLocation(c.ZoneName)
+			if err != nil {
+				panic(err)
+			}
+			time.Local = loc
+		} else {
+			name = fmt.Sprintf("UTC%+dmin", c.Zone)
+			time.Local = time.FixedZone(name, c.Zone*60)
+		}
+		t := baseMs + int64(c.I.Day)*msDay + c.I.Off
+		if err := checkInstant(t); err != nil {
+			return pbt.Fail("with the host zone %s: %v", name, err)
+		}
+		key := binary.BigEndian.AppendUint64([]byte(name), uint64(t))
+		return &pbt.Result{NT: true, Classes: []string{"zone=" + name}, Key: key}
+	},
+})
+
+func TestHelpersIgnoreHostZone(t *testing.T) { specZoned.Check(t) }
+
 // ---- DateFormat: Parse is the inverse of Format ---------------------------------
 
 type FmtCase struct {
